@@ -356,9 +356,47 @@ func (g *Gen) genStoreHistory(prop string, maxOps int) {
 			if dst == id {
 				continue
 			}
+			if r.Bool(50) {
+				sg.observe(id, false) // a read before the copy (stores may memoise what a read computed)
+			}
 			g.emit("scopy %d %d", dst, id)
 			sg.h[dst] = &gstore{kind: e.kind, n: e.n, truth: e.truth.Copy()}
 			g.stats["op:copy"]++
+			if r.Bool(60) {
+				// copy, then diverge at once: one of the two is mutated, the other is read
+				a, b := id, dst
+				if r.Bool(50) {
+					a, b = dst, id
+				}
+				ea := sg.h[a]
+				switch r.Intn(3) {
+				case 0:
+					f := []string{"1/2", "2", "4", "1/4", "3"}[r.Intn(5)]
+					w, _ := parseRat(f)
+					save := ea.truth.Copy()
+					ea.truth.Scale(w)
+					if ea.truth.InEnvelope() {
+						g.emit("srew %d %s", a, f)
+					} else {
+						ea.truth = save
+					}
+				case 1:
+					i, w := sg.nextIndex(), sg.nextWeight()
+					save := ea.truth.Copy()
+					ea.truth.Add(i, w)
+					if ea.truth.InEnvelope() {
+						g.emit("sadd %d %d %s", a, i, showRat(w))
+					} else {
+						ea.truth = save
+					}
+				default:
+					g.emit("sclear %d", a)
+					ea.truth.Clear()
+				}
+				sg.observe(b, false)
+				sg.observe(a, false)
+				g.stats["copy-then-diverge"]++
+			}
 		case 3:
 			g.emit("sclear %d", id)
 			e.truth.Clear()
